@@ -131,7 +131,7 @@ def Src (f : Fields Q P) (rng : List Int) (rest : List Int) : Prop :=
 
 theorem pickOutcome_src (f : Fields Q P) (rng : List Int) (i : Int) (rest : List Int) (h : Src f rng (i :: rest)) :
     ∃ f' rng', pickOutcome f rng = .ok (i, f', rng') ∧ Src f' rng' rest ∧
-      f'.st = f.st ∧ f'.form = f.form ∧ f'.prob = f.prob ∧ f'.opIndex = f.opIndex := by
+      f'.st = f.st ∧ f'.form = f.form ∧ f'.prob = f.prob ∧ f'.opIndex = f.opIndex ∧ f'.mixed = f.mixed := by
   unfold pickOutcome
   rcases h with ⟨ht, hd⟩ | ⟨hf, tail, htail⟩
   · have hget : (f.mres.getD [])[f.mind]? = some i := by
@@ -140,8 +140,8 @@ theorem pickOutcome_src (f : Fields Q P) (rng : List Int) (i : Int) (rest : List
     have hdrop : (f.mres.getD []).drop (f.mind + 1) = rest := by
       have := congrArg List.tail hd
       simpa [List.tail_drop] using this
-    refine ⟨{ f with mind := f.mind + 1 }, rng, by simp [ht, hget], Or.inl ⟨ht, hdrop⟩, rfl, rfl, rfl, rfl⟩
-  · refine ⟨f, rest ++ tail, by simp [hf, htail], Or.inr ⟨hf, tail, rfl⟩, rfl, rfl, rfl, rfl⟩
+    refine ⟨{ f with mind := f.mind + 1 }, rng, by simp [ht, hget], Or.inl ⟨ht, hdrop⟩, rfl, rfl, rfl, rfl, rfl⟩
+  · refine ⟨f, rest ++ tail, by simp [hf, htail], Or.inr ⟨hf, tail, rfl⟩, rfl, rfl, rfl, rfl, rfl⟩
 
 /-! ## One step of the model = one step of the branch semantics -/
 
@@ -153,6 +153,13 @@ structure Rel (ncb : Nat) (k : Core Q P) (rng : List Int) (b : Br Q P) : Prop wh
   src : Src k.f rng b.rest
   form : k.f.form = .qobj ∨ k.f.form = .tensor
   ok : BitsOk ncb k.bits
+  mixed : k.f.mixed = []      -- `_mixed_cbits` is only ever filled in density-matrix mode
+
+theorem refuses_nil (cfg : Cfg) (g : Gate) : refuses cfg g [] = false := by
+  unfold refuses
+  cases g.cc with
+  | none => simp
+  | some cs => simp
 
 theorem pyIdx_two (i : Int) (h : i = 0 ∨ i = 1) : pyIdx 2 i = some i.toNat := by
   rcases h with rfl | rfl <;> rfl
@@ -174,13 +181,13 @@ theorem coreStep_gate [Mul P] (B : Backend Q P) (cfg : Cfg) (c : Circuit) (k : C
   have hfb : firesB g b.bits = bv := by unfold firesB; rw [← hrel.bits, hbv]
   refine ⟨_, rfl, ?_⟩
   unfold coreStep
-  simp only [hop]
+  simp only [hop, hrel.mixed, refuses_nil, Bool.false_eq_true, ↓reduceIte]
   cases bv with
   | false =>
     simp only [hbv]
     refine ⟨by trivial, by trivial, ?_, by simp [hq]⟩
     simp only [brStep, hbq, hfb, Bool.false_eq_true, ↓reduceIte]
-    exact ⟨hrel.bits, hrel.st, hrel.prob, hrel.src, hrel.form, hrel.ok⟩
+    exact ⟨hrel.bits, hrel.st, hrel.prob, hrel.src, hrel.form, hrel.ok, rfl⟩
   | true =>
     simp only [hbv, hq]
     have hform : ∃ fm, einsumForm c.nq g.qubits k.f.form = .ok fm ∧ (fm = .qobj ∨ fm = .tensor) := by
@@ -189,21 +196,21 @@ theorem coreStep_gate [Mul P] (B : Backend Q P) (cfg : Cfg) (c : Circuit) (k : C
     simp only [hfm]
     refine ⟨by trivial, by trivial, ?_, by trivial⟩
     simp only [brStep, hbq, hfb, ↓reduceIte]
-    exact ⟨hrel.bits, rfl, hrel.prob, hrel.src, hfm', hrel.ok⟩
+    exact ⟨hrel.bits, rfl, hrel.prob, hrel.src, hfm', hrel.ok, rfl⟩
 
 theorem getter_good (cfg : Cfg) (f : Fields Q P) (h : f.form = .qobj ∨ f.form = .tensor) :
     ∃ f', getter cfg f = (f', none) ∧ f'.st = f.st ∧ f'.prob = f.prob ∧ f'.opIndex = f.opIndex ∧
-      f'.mres = f.mres ∧ f'.mind = f.mind := by
+      f'.mres = f.mres ∧ f'.mind = f.mind ∧ f'.mixed = f.mixed := by
   unfold getter
   cases hst : f.st with
-  | none => exact ⟨f, rfl, hst.symm ▸ rfl, rfl, rfl, rfl, rfl⟩
+  | none => exact ⟨f, rfl, hst.symm ▸ rfl, rfl, rfl, rfl, rfl, rfl⟩
   | some q =>
     rcases h with h | h
-    · simp only [h]; exact ⟨f, rfl, hst.symm ▸ rfl, rfl, rfl, rfl, rfl⟩
+    · simp only [h]; exact ⟨f, rfl, hst.symm ▸ rfl, rfl, rfl, rfl, rfl, rfl⟩
     · simp only [h]
       by_cases hp : cfg.pureGetter
-      · simp only [hp, ↓reduceIte]; exact ⟨f, rfl, hst.symm ▸ rfl, rfl, rfl, rfl, rfl⟩
-      · simp only [hp, Bool.false_eq_true, ↓reduceIte]; exact ⟨_, rfl, hst.symm ▸ rfl, rfl, rfl, rfl, rfl⟩
+      · simp only [hp, ↓reduceIte]; exact ⟨f, rfl, hst.symm ▸ rfl, rfl, rfl, rfl, rfl, rfl⟩
+      · simp only [hp, Bool.false_eq_true, ↓reduceIte]; exact ⟨_, rfl, hst.symm ▸ rfl, rfl, rfl, rfl, rfl, rfl⟩
 
 theorem coreStep_meas [Mul P] (B : Backend Q P) (cfg : Cfg) (c : Circuit) (k : Core Q P) (rng : List Int)
     (b : Br Q P) (t : Nat) (store : Option Int) (q : Q) (i : Int) (rest : List Int)
@@ -218,7 +225,7 @@ theorem coreStep_meas [Mul P] (B : Backend Q P) (cfg : Cfg) (c : Circuit) (k : C
   simp only [hop]
   unfold measureSv
   simp only
-  obtain ⟨f', hg, hg1, hg2, hg3, hg4, hg5⟩ := getter_good cfg { k.f with opIndex := k.f.opIndex + 1 } hrel.form
+  obtain ⟨f', hg, hg1, hg2, hg3, hg4, hg5, hg6⟩ := getter_good cfg { k.f with opIndex := k.f.opIndex + 1 } hrel.form
   rw [hg]
   simp only
   have hst' : f'.st = some q := by rw [hg1]; exact hq
@@ -229,7 +236,8 @@ theorem coreStep_meas [Mul P] (B : Backend Q P) (cfg : Cfg) (c : Circuit) (k : C
     rcases hrel.src with ⟨h1, h2⟩ | ⟨h1, h2⟩
     · left; rw [hg4, hg5]; exact ⟨h1, by rw [h2, hrest]⟩
     · right; rw [hg4]; exact ⟨h1, by rw [← hrest]; exact h2⟩
-  obtain ⟨f1, rng1, hp, hsrc1, h1st, _h1form, h1prob, h1idx⟩ := pickOutcome_src f' rng i rest hsrc
+  obtain ⟨f1, rng1, hp, hsrc1, h1st, _h1form, h1prob, h1idx, h1mixed⟩ := pickOutcome_src f' rng i rest hsrc
+  have hmix : f1.mixed = [] := by rw [h1mixed, hg6]; exact hrel.mixed
   rw [hp]
   simp only [pyIdx_two i hi]
   have hprob : f1.prob = b.prob := by rw [h1prob, hg2]; exact hrel.prob
@@ -238,7 +246,7 @@ theorem coreStep_meas [Mul P] (B : Backend Q P) (cfg : Cfg) (c : Circuit) (k : C
     simp only
     refine ⟨by trivial, by simp [h1idx, hg3], ?_⟩
     simp only [brStep, hbq, hrest, writeBit]
-    exact ⟨hrel.bits, rfl, by simp [hprob], hsrc1, Or.inl rfl, hrel.ok⟩
+    exact ⟨hrel.bits, rfl, by simp [hprob], hsrc1, Or.inl rfl, hrel.ok, hmix⟩
   | some sidx =>
     obtain ⟨hs0, hs1⟩ := hs sidx rfl
     cases hkb : k.bits with
@@ -253,7 +261,7 @@ theorem coreStep_meas [Mul P] (B : Backend Q P) (cfg : Cfg) (c : Circuit) (k : C
       refine ⟨by trivial, by simp [h1idx, hg3], ?_⟩
       have hbb : b.bits = some l := by rw [← hrel.bits, hkb]
       simp only [brStep, hbq, hrest, writeBit, hbb, hl', Option.getD_some]
-      exact ⟨rfl, rfl, by simp [hprob], hsrc1, Or.inl rfl, ⟨by rw [hlen]; exact hok.1, hok.2⟩⟩
+      exact ⟨rfl, rfl, by simp [hprob], hsrc1, Or.inl rfl, ⟨by rw [hlen]; exact hok.1, hok.2⟩, hmix⟩
 
 /-! ## The whole run -/
 
